@@ -23,6 +23,6 @@ MUTANTS = [
 ]
 MUTANTS += [
     Mutant('reassign_forward_delete', F, edit_node('Statements.reassign', lambda n, seg: isinstance(n, ast.Call) and seg.startswith('zip(range(len(new) - 1'), lambda seg: 'enumerate(list(new))'), 'D4', 'forward deletion by index'),
-    Mutant('unguarded_traversal', F, edit_node('Statements.dependencies', lambda n, seg: isinstance(n, ast.BoolOp) and seg == 'i == 0 or i not in g', lambda seg: 'i == 0 or not g'), 'D5', 'traversal from a missing node'),
+    Mutant('unguarded_traversal', F, edit_node('Statements.direct_dependencies', lambda n, seg: isinstance(n, ast.Compare) and seg == 'index in g', lambda seg: 'len(g) > 0'), 'D5', 'traversal from a missing node'),
     Mutant('accumulator_rebound', 'src/pharmpy/modeling/common.py', edit_node('_get_unused_parameters_and_rvs', stmt_containing('to_unjoin.append(name)'), lambda seg: 'to_unjoin = [name]'), 'D4', 'accumulator overwritten per iteration'),
 ]
